@@ -447,6 +447,33 @@ func runCase(r *mon.Rec, idx int) {
 		r.Violate("C15:"+b.name+":modifiers-do-not-prevail", fmt.Sprintf("%s with modifiers %v (list with %d spare slots, handed to %s first: %v): expected %s, got %s", b.name, names, spare, other.name, reuse, exp.Canon(), rpj.Canon()), rp)
 		return
 	}
+	// the built packet is the caller's: it updates options in it (a server filling in its reply); the packet it was
+	// built from stays what it was
+	if pan2, _, _ := mon.Guard(func() {
+		for _, c := range []uint8{82, 61, 54, 55, 53} {
+			if v := res.Options.Get(dhcpv4.GenericOptionCode(c)); len(v) > 0 {
+				nv := make([]byte, len(v))
+				for i := range nv {
+					nv[i] = ^v[i]
+				}
+				res.Options.Update(dhcpv4.OptGeneric(dhcpv4.GenericOptionCode(c), nv))
+			}
+		}
+		if len(res.ClientHWAddr) > 0 && rng.IntN(2) == 0 {
+			res.UpdateOption(dhcpv4.OptGeneric(dhcpv4.GenericOptionCode(232), []byte{1}))
+		}
+	}); pan2 {
+		r.Count("post-build-update-panicked", 1)
+	}
+	if ia, ok := proj.P4(in); !ok || ia.Canon() != inBefore {
+		r.Violate("C15:"+b.name+":input-changed", fmt.Sprintf("%s: updating options of the built packet changed the packet it was built from", b.name), rp)
+		return
+	}
+	rpj, _ = proj.P4(res)
+	bp, _ = proj.P4(base)
+	if rpj == nil || bp == nil {
+		return
+	}
 	// packets built earlier stay what they were while later ones are built (the caller keeps them: an offer it is about
 	// to answer, a discover it will retransmit)
 	for _, h := range heldResults {
